@@ -12,12 +12,90 @@ Case splits aimed at (DESIGN.md C01 "Generators and bounds"):
   actuals; recursion (fib/fac shapes, deep linear recursion); subscripts containing calls and input;
   strings incl. the empty string passed to array formals; val constants at the +-65536 immediate/pool
   boundary; procedures named like generated labels (lab0, start); 0-12 formals; array formals;
-  main returning / exit(e) / stop; `return e` inside procedures; shadowing of globals by locals."""
+  main returning / exit(e) / stop; `return e` inside procedures; shadowing of globals by locals;
+  identifiers (globals, arrays, procedures, formals, locals) that look like names the compiler or the assembler
+  uses itself (start, exit, lab3, const0, string0, sp, mnemonics: NAME_POOL); local vals declared before, between
+  and after local vars; a local var that is a subscript across an array assignment / a call (live_index);
+  functions that return a call of themselves with actuals that read formals other actuals replace (tail_rec);
+  long sequences of array-element assignments."""
 import random
 
 BOUNDARY = [65535, 65536, 65537, 65534, 70000, 100000, 1 << 20, 131071, 131072]
 SMALL = [0, 1, 2, 3, 4, 5, 7, 9, 15, 16, 17, 100, 255, 256, 1000]
 RELOPS = ['=', '~=', '<', '<=', '>', '>=']
+# identifiers X allows that coincide with names the compiler / assembler use themselves: generated labels (_start, _exit,
+# _labN, _constN, _stringN: a tool that derives a label from an X name collides), register and section names, mnemonics
+# and directives of the assembly language, and identifiers with underscores and digits
+NAME_POOL = ['start', 'start', 'start', 'exit', 'lab0', 'lab1', 'lab2', 'lab3', 'lab4', 'lab5', 'lab8', 'lab13', 'const0', 'const1', 'string0',
+             'string1', 'sp', 'pc', 'areg', 'breg', 'oreg', 'BR', 'BRZ', 'BRN', 'BRB', 'LDAM', 'LDBM', 'STAM', 'LDAC', 'LDBC', 'LDAP',
+             'LDAI', 'LDBI', 'STAI', 'OPR', 'SVC', 'ADD', 'SUB', 'PFIX', 'NFIX', 'DATA', 'PROC', 'FUNC', 'PADDING', 'main_', 'start_',
+             'exit_', 'x_1', 'a_', 'end', 'begin', 'data', 'text', 'mem', 'size', 'main0', 'Main', 'START', 'Exit']
+
+
+def _ren_expr(e, m):
+    t = e[0]
+    if t == 'var':
+        return ('var', m.get(e[1], e[1]))
+    if t == 'sub':
+        return ('sub', m.get(e[1], e[1]), _ren_expr(e[2], m))
+    if t == 'call':
+        return ('call', m.get(e[1], e[1]), [_ren_expr(a, m) for a in e[2]])
+    if t == 'sys':
+        return ('sys', e[1], [_ren_expr(a, m) for a in e[2]])
+    if t in ('neg', 'not'):
+        return (t, _ren_expr(e[1], m))
+    if t == 'bin':
+        return ('bin', e[1], _ren_expr(e[2], m), _ren_expr(e[3], m))
+    return e
+
+
+def _ren_stmt(s, m):
+    t = s[0]
+    if t == 'seq':
+        return ('seq', [_ren_stmt(x, m) for x in s[1]])
+    if t == 'if':
+        return ('if', _ren_expr(s[1], m), _ren_stmt(s[2], m), _ren_stmt(s[3], m))
+    if t == 'while':
+        return ('while', _ren_expr(s[1], m), _ren_stmt(s[2], m))
+    if t == 'return':
+        return ('return', _ren_expr(s[1], m))
+    if t == 'assign':
+        return ('assign', m.get(s[1], s[1]), _ren_expr(s[2], m))
+    if t == 'assignsub':
+        return ('assignsub', m.get(s[1], s[1]), _ren_expr(s[2], m), _ren_expr(s[3], m))
+    if t == 'call':
+        return ('call', m.get(s[1], s[1]), [_ren_expr(a, m) for a in s[2]])
+    if t == 'sys':
+        return ('sys', s[1], [_ren_expr(a, m) for a in s[2]])
+    return s
+
+
+def _ren_decl(d, m):
+    if d[0] == 'var':
+        return ('var', m.get(d[1], d[1]))
+    return (d[0], m.get(d[1], d[1]), _ren_expr(d[2], m))
+
+
+def declared_names(p):
+    """every identifier the program declares, by class"""
+    out = {'gvar': [], 'garray': [], 'gval': [], 'proc': [], 'formal': [], 'local': []}
+    for d in p['globals']:
+        out[{'var': 'gvar', 'array': 'garray', 'val': 'gval'}[d[0]]].append(d[1])
+    for q in p['procs']:
+        out['proc'].append(q['name'])
+        out['formal'] += [f[1] for f in q['formals']]
+        out['local'] += [d[1] for d in q['locals']]
+    return out
+
+
+def rename_program(p, m):
+    """the program with every occurrence of the identifiers in m renamed (the new names must not occur in p: scopes are
+    by name, so the meaning is unchanged)"""
+    q = dict(p)
+    q['globals'] = [_ren_decl(d, m) for d in p['globals']]
+    q['procs'] = [{'kind': r['kind'], 'name': m.get(r['name'], r['name']), 'formals': [(f[0], m.get(f[1], f[1])) for f in r['formals']],
+                   'locals': [_ren_decl(d, m) for d in r['locals']], 'body': _ren_stmt(r['body'], m)} for r in p['procs']]
+    return q
 
 
 def num(n):
@@ -292,8 +370,18 @@ class Gen:
         glob = eff != 'none'
         imp = eff == 'writes'
         r = self.r.random()
+        if depth > 0 and imp and self.chance(0.12):
+            s = self.live_index(env, fn)
+            if s is not None:
+                return s
         if depth <= 0 or r < 0.34:
             warr = [a for a, (n, w, _) in env.arrays.items() if w and n > 0]
+            if warr and imp and depth > 0 and self.chance(0.08):
+                # a run of array-element assignments in one sequence (each needs a temporary for the element address)
+                a = self.r.choice(warr)
+                n = env.arrays[a][0]
+                return ('seq', [('assignsub', a, self.r.choice([('num', self.r.randrange(n)), self.index(env, a, True, False)]),
+                                 self.int_expr(env, 1, True, False)) for _ in range(self.r.randint(3, 9))])
             if warr and imp and self.chance(0.3):
                 a = self.r.choice(warr)
                 li, ri = self.split(True)
@@ -346,6 +434,49 @@ class Gen:
             return self.r.choice([('stop',), self.sys(0, [self.int_expr(env, 1, True, False)])])
         return ('skip',)
 
+    def live_index(self, env, fn):
+        """v := k; a[v] := e; [p(..);] a[v] := e' / x := a[v]: a local variable that is a subscript, live across an array
+        assignment (whose element address is kept in a temporary) and across a procedure call (whose link word and
+        actuals lie in the outgoing area)"""
+        r = self.r
+        warr = [a for a, (n, w, _) in env.arrays.items() if w and n > 0]
+        locs = [v for v in env.assign if v not in env.globs and v not in env.bools and v not in env.counters]
+        if not warr or not locs:
+            return None
+        a = r.choice(warr)
+        n = env.arrays[a][0]
+        v = r.choice(locs)
+        k = r.randrange(n)
+        e2 = env.copy()
+        e2.assign = [x for x in env.assign if x != v]
+        e2.small[v] = k + 1
+        e2.counters = []
+        out = [('assign', v, r.choice([('num', k), ('bin', '-', ('num', k + 3), ('num', 3))]))]
+        if self.chance(0.3):
+            vs = [x for x in env.vals if 0 <= env.vals[x] < n]
+            if vs:
+                x = r.choice(vs)
+                out = [('assign', v, ('var', x))]
+                e2.small[v] = env.vals[x] + 1
+        for _ in range(r.randint(1, 3)):
+            q = r.random()
+            if q < 0.5:
+                out.append(('assignsub', a, ('var', v), self.int_expr(e2, 2, True, self.chance(0.3))))
+            elif q < 0.8:
+                ps = [f for f in e2.funcs if f.kind == 'proc']
+                if ps:
+                    f = r.choice(ps)
+                    out.append(('call', f.name, self.actuals(e2, f, 1, True, True)))
+                else:
+                    out.append(('assignsub', a, ('var', v), self.int_expr(e2, 2, True, False)))
+            else:
+                tg = [x for x in e2.assign if x not in e2.bools]
+                if tg:
+                    out.append(('assign', r.choice(tg), ('bin', r.choice(['+', '-']), ('sub', a, ('var', v)), self.int_expr(e2, 1, True, False))))
+        out.append(('assignsub', a, ('var', v), ('bin', '+', ('sub', a, ('var', v)), ('num', r.randint(0, 3)))) if self.chance(0.6)
+                   else self.sys(1, [('bin', '+', ('sub', a, ('var', v)), ('num', 48)), ('num', 0)]))
+        return ('seq', out)
+
     def ret_expr(self, env, fn):
         glob = fn.effect != 'none'
         imp = fn.effect == 'writes'
@@ -391,6 +522,10 @@ class Gen:
         effect = r.choice(['none', 'reads', 'reads', 'writes', 'writes']) if kind == 'func' else 'writes'
         nf = r.choice([0, 1, 1, 2, 2, 3, 3, 4, 5]) if not self.chance(0.08) else r.randint(6, 12)
         rec = kind == 'func' and self.chance(0.3)
+        # a function that returns a call of itself whose actuals read formals that other actuals replace
+        tail = rec and self.chance(0.4)
+        if tail:
+            nf = max(nf, r.choice([2, 2, 3, 4]))
         # how the body begins: with the initialisation of the locals (None), or directly behind the prologue with a
         # while / if / return that reads a value formal
         first_mode = None if rec or not self.chance(0.3) else r.choice(['while', 'while', 'if', 'return'])
@@ -419,7 +554,7 @@ class Gen:
             env.ints.append('w')
             nf = max(nf, 1)
         for j in range(len(formals), nf):
-            if effect != 'none' and self.chance(0.18):
+            if effect != 'none' and not tail and self.chance(0.18):
                 info = {'minlen': r.choice([1, 1, 2, 3]), 'writes': effect == 'writes' and self.chance(0.4)}
                 nm = self.clash_name(genv, [f[1] for f in formals], 's%d' % j)
                 self.hide(env, nm)
@@ -459,11 +594,20 @@ class Gen:
             env.assign.append('b')
             env.ints.append('b')
             init.append(('assign', 'b', r.choice([('true',), ('false',), ('bin', '<', ('num', 1), ('num', 2))])))
-        if self.chance(0.12):
-            v = self.const_value()
-            locs.insert(0, ('val', 'k', self.r.choice([num(v), ('bin', '+', num(v), ('num', 0))])))
-            env.vals['k'] = v
+        if self.chance(0.3):
+            # local vals: declared before, between and after the local vars (a val takes no frame word)
+            for nm in ['k', 'kk', 'k_'][:r.choice([1, 1, 2, 3])]:
+                if nm in used:
+                    continue
+                v = self.const_value() if self.chance(0.5) else r.randint(0, 3)
+                used.add(nm)
+                self.hide(env, nm)
+                locs.insert(0, ('val', nm, self.r.choice([num(v), num(v), ('bin', '+', num(v), ('num', 0))])))
+                env.vals[nm] = v
         r.shuffle(locs)
+        if any(d[0] == 'val' for d in locs) and self.chance(0.5):
+            # the vals first (then every local var is declared behind a val)
+            locs = [d for d in locs if d[0] == 'val'] + [d for d in locs if d[0] != 'val']
         first = []
         if first_mode == 'while':
             base, step = fn.loop
@@ -488,9 +632,35 @@ class Gen:
         if rec:
             env.selfrec = (fn, 'd')
             base = ('return', self.bool_expr(env, 1, False, False) if fn.ret == 'bool' else self.leaf_int(env, False))
+            if tail:
+                # the result shows what the formals hold at the bottom of the recursion
+                fv = [f[1] for f in formals[1:]]
+                e = ('var', fv[0])
+                for x in fv[1:]:
+                    e = ('bin', r.choice(['+', '-']), e, ('var', x)) if e[0] == 'var' or e[1] == '+' else ('bin', '-', e, ('var', x))
+                    if e[1] == '-':
+                        break
+                if fn.ret == 'bool':
+                    e = ('bin', r.choice(['<', '>=', '=']), e, r.choice([('num', r.randint(0, 9)), ('var', fv[-1])]))
+                base = ('return', e)
             e2 = env.copy()
             inner = [self.stmt(e2, 1, fn) for _ in range(r.randint(0, 2))]
-            inner.append(('return', self.ret_expr(e2, fn)))
+            if tail:
+                inner = [x for x in inner if self.chance(0.3)]
+                fv = [f[1] for f in formals]
+                acts = [('bin', '-', ('var', 'd'), ('num', 1))]
+                for j in range(1, len(fv)):
+                    # a call-free actual that reads formals of other positions (earlier ones above all): a permutation,
+                    # an accumulator, a difference
+                    o = r.choice(fv[:j]) if self.chance(0.7) else r.choice(fv)
+                    o2 = r.choice(fv)
+                    acts.append(r.choice([('var', o), ('bin', '+', ('var', fv[j]), ('var', o)), ('bin', '+', ('var', o), ('var', o2)),
+                                          ('bin', '-', ('var', o), ('var', fv[j])), ('bin', '+', ('var', o), ('num', r.randint(0, 3)))]))
+                call = ('call', name, acts)
+                inner.append(('return', call if fn.ret != 'bool' else ('bin', '~=', call, ('num', 0))) if self.chance(0.85)
+                             else ('return', ('bin', '+', call, ('num', 0))))
+            else:
+                inner.append(('return', self.ret_expr(e2, fn)))
             guard = r.choice([('bin', '<=', ('var', 'd'), ('num', 0)), ('bin', '<', ('var', 'd'), ('num', 1)),
                               ('not', ('bin', '>', ('var', 'd'), ('num', 0)))])
             body.append(('if', guard, base, ('seq', inner)))
@@ -596,12 +766,47 @@ class Gen:
         pos = r.choice([0, len(procs), len(procs), r.randint(0, len(procs))])
         procs.insert(pos, main)
         prog = {'globals': globals_, 'procs': procs, 'style': r.choice([0, 0, 1, 1, 2, 3])}
+        prog = self.special_names(prog)
         minlen = min(arrays.values()) if arrays else 10
         digits = [48 + r.randrange(min(minlen, 10)) for _ in range(24)]
         inputs = [[], digits, [r.randrange(256) for _ in range(r.randint(1, 12))]]
         if not self.uses_input:
             inputs = inputs[:2]
         return prog, inputs
+
+
+def _special_names(self, prog):
+    """some identifiers renamed to names the compiler / assembler use themselves (NAME_POOL); in about one program in six
+    a global variable or a global array is called `start`"""
+    r = self.r
+    dn = declared_names(prog)
+    sysn = set(self.sysname.values())
+    taken = set(x for v in dn.values() for x in v) | sysn
+    m = {}
+
+    def pick(cands, new=None):
+        cands = [c for c in cands if c not in m and c not in sysn and c not in ('main',)]
+        if not cands:
+            return
+        old = r.choice(cands)
+        for _ in range(8):
+            nn = new if new is not None else r.choice(NAME_POOL)
+            new = None
+            if nn not in taken:
+                m[old] = nn
+                taken.add(nn)
+                return
+    x = r.random()
+    if x < 0.16:
+        pick(dn['gvar'] + dn['garray'] * 2, 'start')
+    if x < 0.45:
+        for _ in range(r.choice([1, 1, 2, 3, 5])):
+            cls = r.choice(['gvar', 'gvar', 'garray', 'garray', 'gval', 'proc', 'proc', 'formal', 'local', 'local'])
+            pick(dn[cls])
+    return rename_program(prog, m) if m else prog
+
+
+Gen.special_names = _special_names
 
 
 def generate(seed):
@@ -650,6 +855,30 @@ def directed():
     S.append(('while-first-on-formal-locals', hdr + 'var g;\nfunc f(val w, val k) is var a; var b; var c;\n{ while w > 199999 do { g := g + k; w := w - 2 }; a := g; b := a + 1; c := b - a; return a + c }\nproc main() is { g := 0; put(f(200007, 3) + 48, 0); exit(f(200003, 1)) }\n', [[]]))
     S.append(('if-first-on-formal', hdr + 'func f(val w) is var a;\n{ if w < 200000 then a := 1 else a := 2; return a + w }\nproc main() is exit(f(199999) + f(200001))\n', [[]]))
     S.append(('return-first-on-formal', hdr + 'func f(val w, val v) is var a; var b;\n{ if w = 200000 then return v + 1 else skip; a := w; b := v; return a - b }\nproc main() is exit(f(200000, 4) + f(7, 2))\n', [[]]))
+    # identifiers that coincide with names the compiler / assembler use themselves
+    S.append(('global-var-named-start', hdr + 'var start; var lab0; var sp;\nproc main() is { start := 5; lab0 := start + 1; sp := lab0 + start; put(start + 48, 0); exit(sp) }\n', [[]]))
+    S.append(('global-array-named-start', hdr + 'array start[3]; array const0[2];\nproc set(array v, val i, val x) is v[i] := x\n'
+              'proc main() is { set(start, 0, 4); set(start, 2, 6); const0[1] := start[0] + start[2]; put(const0[1] + 48, 0); exit(start[2]) }\n', [[]]))
+    S.append(('globals-named-like-labels', hdr + 'val string0 = 70000; var exit_; var lab1; array lab2[2]; array DATA[2]; var BR;\n'
+              'func LDAM(val OPR, val PROC) is var FUNC; { FUNC := OPR - PROC; return FUNC + (string0 - 69999) }\n'
+              'proc main() is { exit_ := 1; lab1 := 2; lab2[0] := 3; lab2[1] := 4; DATA[0] := 5; DATA[1] := lab2[1] + DATA[0]; BR := LDAM(DATA[1], lab1); put(BR + 48, 0); exit(BR + (exit_ + lab2[0])) }\n', [[]]))
+    # local vals before / between local vars; the var behind the val is a subscript across a temporary and across a call
+    S.append(('local-val-before-var-index', hdr + 'array t[6]; array u[6];\nproc fill(val n, val x) is val lo = 1; var i; val step = 1; var j;\n'
+              '{ i := lo; j := 0; while i < n do { t[i] := x + i; u[i] := t[i] + (x - (j + 1)); j := j + step; i := i + step } }\n'
+              'proc main() is { t[0] := 0; u[0] := 0; fill(6, 2); put(t[5] + 48, 0); put(u[3] + 48, 0); exit(u[5] + t[1]) }\n', [[]]))
+    S.append(('local-val-before-var-call', hdr + 'array v[5]; var n; var acc;\nproc bump() is n := n + 1\n'
+              'func scan() is val top = 5; var i; { i := 0; acc := 0; while i < top do { bump(); acc := acc + v[i]; i := i + 1 }; return acc }\n'
+              'proc main() is { n := 0; v[0] := 1; v[1] := 2; v[2] := 3; v[3] := 4; v[4] := 5; put(scan() + 48, 0); exit(n) }\n', [[]]))
+    # a function returning a call of itself with two and three formals: permuted and dependent actuals
+    S.append(('self-tail-call-accumulator', hdr + 'func tri(val n, val acc) is if n = 0 then return acc else return tri(n - 1, acc + n)\n'
+              'func fibt(val n, val a, val b) is if n = 0 then return a else return fibt(n - 1, b, a + b)\n'
+              'proc main() is { put(tri(4, 0) + 48, 0); put(fibt(6, 0, 1) + 48, 0); exit(tri(9, 1)) }\n', [[]]))
+    S.append(('self-tail-call-swap', hdr + 'func gcd(val a, val b) is if a = b then return a else if a < b then return gcd(b, a) else return gcd(a - b, b)\n'
+              'func rot(val n, val x, val y, val z) is if n < 1 then return (x - y) + (z + z) else return rot(n - 1, y, z, x)\n'
+              'proc main() is { put(gcd(12, 18) + 48, 0); put(rot(4, 1, 2, 3) + 48, 0); exit(gcd(35, 14)) }\n', [[]]))
+    # a long sequence of array-element assignments in a recursive procedure
+    S.append(('sequence-of-array-assignments', hdr + 'array m[6];\nproc w(val n) is if n = 0 then skip else { m[0] := n; m[1] := n + 1; m[2] := m[0] + m[1]; m[3] := n - 1; m[4] := m[3] + 2; m[5] := n; w(n - 1) }\n'
+              'proc main() is { w(40); put(m[2] + 48, 0); exit(m[4]) }\n', [[]]))
     S.append(('exit-in-function', hdr + 'func f(val x) is { if x > 2 then exit(x + 40) else skip; return x }\nproc main() is { put(f(1) + 48, 0); put(f(7) + 48, 0) }\n', [[]]))
     return S
 
